@@ -19,19 +19,19 @@ import (
 )
 
 type report struct {
-	Ops         []string       `json:"ops"`
-	Bound       int            `json:"bound"`
-	Schedules   int            `json:"schedules"`
-	Steps       int            `json:"steps"`
-	PointsAlone []int          `json:"points_alone"`
-	Outcomes    int            `json:"distinct_outcomes"`
-	CapHit      bool           `json:"cap_hit"`
-	Failure     string         `json:"failure,omitempty"`
+	Ops         []string        `json:"ops"`
+	Bound       int             `json:"bound"`
+	Schedules   int             `json:"schedules"`
+	Steps       int             `json:"steps"`
+	PointsAlone []int           `json:"points_alone"`
+	Outcomes    int             `json:"distinct_outcomes"`
+	CapHit      bool            `json:"cap_hit"`
+	Failure     string          `json:"failure,omitempty"`
 	FailSched   []vsched.Switch `json:"failing_schedule,omitempty"`
-	Globals     []string       `json:"package_level_variables"`
-	Static      int            `json:"static_points"`
-	Determinism string         `json:"determinism"`
-	GlobalWrite string         `json:"package_level_write,omitempty"`
+	Globals     []string        `json:"package_level_variables"`
+	Static      int             `json:"static_points"`
+	Determinism string          `json:"determinism"`
+	GlobalWrite string          `json:"package_level_write,omitempty"`
 }
 
 func main() {
